@@ -1,8 +1,13 @@
 #!/bin/bash
-# usage: try_seed.sh <name> <prop> [tier]  -- apply seeded patch to /repo, run the check, undo
+# usage: try_seed.sh <name> <prop> [tier]  -- apply seeded patch to /repo, run the check, undo.
+# evidence and replay files written by the mutated run are discarded.
 N="$1"; P="$2"; T="${3:-quick}"
 cd /repo && git diff --quiet || { echo "/repo dirty"; exit 9; }
 git -C /repo apply /verif/seeded/$N/patch.diff || { echo "patch does not apply"; exit 9; }
+cp /verif/evidence/$P.json /tmp/ev_$P.bak 2>/dev/null
+mkdir -p /tmp/replays_bak && rsync -a --delete /verif/replays/ /tmp/replays_bak/
 cd /verif && ./check $P $T > /tmp/try_$N.log 2>&1; RC=$?
-git -C /repo checkout -- . 
-echo "$N on $P $T: exit=$RC"; grep -E "^(VIOLATION|KNOWN|INCONCLUSIVE|  violation)" /tmp/try_$N.log | head -8; tail -1 /tmp/try_$N.log
+git -C /repo checkout -- .
+[ -f /tmp/ev_$P.bak ] && mv /tmp/ev_$P.bak /verif/evidence/$P.json
+rsync -a --delete /tmp/replays_bak/ /verif/replays/
+echo "$N on $P $T: exit=$RC"; grep -E "^(VIOLATION|KNOWN|INCONCLUSIVE|  violation)" /tmp/try_$N.log | head -6; tail -1 /tmp/try_$N.log
